@@ -358,6 +358,44 @@ theorem blocks_prefix (o : Opts) (hstore : o.store = true) (hmfd : o.maxFrameDep
     rw [e, h1, h3]
     simp [denote, List.append_assoc]
 
+/-- … with the position of the state behind them on the scanner's walk (`At`, Lemmas/ParserStructure) -/
+theorem blocks_prefix_at (o : Opts) (hstore : o.store = true) (hmfd : o.maxFrameDepth ≠ 0) :
+    ∀ (bs : List Block) (bseen : List Str) (rest : List TokSpec) (s : PS) (fuel : Nat) (pol : Policy) (w : W),
+      wfBlocks o bs bseen = true → (∀ c ∈ w.cif, o.norm c.code ∈ bseen) → szBlocks bs ≤ fuel → blockFollow rest →
+      Feeds o s (blocksToks bs ++ rest) →
+      ∃ s', blocksLoop o (fuel + bs.length) s pol w = blocksLoop o fuel s' pol { w with cif := w.cif ++ denote o.dia o.normKey bs }
+        ∧ Lands o s (blocksToks bs).length s' rest
+  | [], bseen, rest, s, fuel, pol, w, _, _, _, _, hF => by
+    refine ⟨s, ?_, by simpa [blocksToks] using hF, (At.refl o s).cast (by simp [blocksToks])⟩
+    simp only [List.length_nil, Nat.add_zero, denote, List.map_nil, List.append_nil]
+  | b :: r, bseen, rest, s, fuel, pol, w, hwf, hseen, hfuel, hrest, hF => by
+    simp only [wfBlocks, Bool.and_eq_true, Bool.not_eq_true'] at hwf
+    obtain ⟨⟨⟨hcode, hcnew⟩, hwb⟩, hwr⟩ := hwf
+    simp only [szBlocks] at hfuel
+    have hnew : ∀ c ∈ w.cif, codeIs o.norm (o.norm b.code) c = false := by
+      intro c hc
+      have h1 := hseen c hc
+      simp only [codeIs, beq_eq_false_iff_ne, ne_eq]
+      intro heq
+      rw [heq] at h1
+      simp [List.contains_iff_mem] at hcnew
+      exact hcnew h1
+    simp only [blocksToks, List.cons_append, List.append_assoc] at hF
+    obtain ⟨s1, h1, h2, ha2⟩ := block_step_at o hstore hmfd b (blocksToks r ++ rest) s (fuel + r.length) pol w hcode hnew hwb
+      (by omega) (blocks_follow r rest hrest) hF
+    obtain ⟨s2, h3, h4, ha4⟩ := blocks_prefix_at o hstore hmfd r (o.norm b.code :: bseen) rest s1 fuel pol
+      { w with cif := w.cif ++ [denoteBlock o.dia o.normKey b] } hwr
+      (by
+        intro c hc
+        rcases List.mem_append.mp hc with h | h
+        · exact List.mem_cons_of_mem _ (hseen c h)
+        · simp only [List.mem_singleton] at h; subst h; simp [denoteBlock, Container.code])
+      (by omega) hrest h2
+    refine ⟨s2, ?_, h4, (ha2.trans ha4).cast (by simp [blocksToks]; omega)⟩
+    have e : fuel + (b :: r).length = (fuel + r.length) + 1 := by simp; omega
+    rw [e, h1, h3]
+    simp [denote, List.append_assoc]
+
 /-- a data block whose code is not a valid block code: one CIF_INVALID_BLOCKCODE, the code is used anyway -/
 theorem invalid_blockcode_step (o : Opts) (hstore : o.store = true) (hmfd : o.maxFrameDepth ≠ 0) (b : Block) (rest : List TokSpec)
     (s : PS) (fuel : Nat) (w : W) (hn0 : noNul b.code = true) (hinv : isValidName false b.code = false)
